@@ -2169,6 +2169,17 @@ func (c *ChannelArbitrator) checkRemoteDanglingActions(
 	for htlcSetKey, htlcs := range activeHTLCs {
 		if htlcSetKey.IsRemote {
 			for _, htlc := range htlcs.outgoingHTLCs {
+				// The HTLC may be on both remote commitments.
+				// If it has an output on one of them, keep
+				// that view: as long as no commitment is
+				// confirmed it can't be treated as dust.
+				// This also makes the result independent of
+				// the map iteration order.
+				known, ok := remoteHTLCs[htlc.HtlcIndex]
+				if ok && known.OutputIndex >= 0 {
+					continue
+				}
+
 				remoteHTLCs[htlc.HtlcIndex] = htlc
 			}
 		} else {
